@@ -707,6 +707,37 @@ fn big_size_events(tr: &mut Trace, c: &Conc, r: &mut Rng, t: i32, n: usize) {
     }
 }
 
+/// C18 on shapes that come out of the READER (not out of the constructors): ring patches and rings that are OPEN in
+/// the file stay open in the value; announced size, emitted bytes and the record header of a re-write still agree
+fn reread_size_events(tr: &mut Trace, r: &mut Rng) {
+    use crate::raw::{encode_files, RawShape};
+    for &t in &[31, 5, 15, 25] {
+        for _ in 0..3 {
+            let np = 1 + r.below(3);
+            let parts: Vec<Vec<[f64; 4]>> = (0..np).map(|k| (0..3 + r.below(3)).map(|i| [i as f64 + k as f64, (i * i) as f64, 1.0, 2.0]).collect()).collect();   // first != last
+            let kinds: Vec<i32> = if t == 31 { (0..np).map(|k| [2, 3, 4, 5, 0, 1][(k + r.below(6)) % 6]).collect() } else { vec![] };
+            let raw = RawShape { t, parts, kinds, bbox: [0.0, 0.0, 9.0, 30.0, 1.0, 1.0, 2.0, 2.0] };
+            let (shp, _) = encode_files(t, &[raw]);
+            let s = match guarded(|| ShapeReader::new(Cursor::new(shp)).and_then(|rd| rd.read())) { Ok(Ok(mut v)) if v.len() == 1 => v.remove(0), _ => continue };
+            let counts = crate::raw::raw_of(&s);
+            let (announced, emitted) = with_inner!(&s, x => {
+                let mut v: Vec<u8> = vec![];
+                let ok = record::WritableShape::write_to(x, &mut v).is_ok();
+                (record::WritableShape::size_in_bytes(x) as i64, if ok { v.len() as i64 } else { -1 })
+            }, (0, 0));
+            let dest = LogDest::new();
+            {
+                let mut w = ShapeWriter::new(dest.clone());
+                let _ = write_all_shapes(&mut w, std::slice::from_ref(&s));
+            }
+            let b = dest.bytes();
+            let words = if b.len() >= 108 { i32::from_be_bytes([b[104], b[105], b[106], b[107]]) as i64 } else { -1 };
+            tr.run(json!({"ev": "bigsize", "t": t, "nparts": counts.parts.len(), "npoints": counts.parts.iter().map(|p| p.len()).sum::<usize>(),
+                          "announced": announced, "emitted": emitted, "words": words, "fileLen": b.len(), "reread": true}));
+        }
+    }
+}
+
 pub fn run(a: &Args) {
     let prop = a.get("prop", "all");
     let out = PathBuf::from(a.get("out", "work/codec"));
@@ -751,6 +782,9 @@ pub fn run(a: &Args) {
             for _ in 0..5 {
                 macro_events(&mut tr, &c, &mut r);
             }
+        }
+        if prop == "C18" || prop == "all" {
+            reread_size_events(&mut tr, &mut r);
         }
         for &t in ALL_TYPES.iter() {
             // the empty file (C02: 0..n shapes)
@@ -800,6 +834,18 @@ pub fn run(a: &Args) {
                 for s in threshold_shapes(&mut r, t, &ths, per) {
                     id += 1;
                     run_case(&mut tr, &c, &prop, t, &[s], &tmp.0, id);
+                }
+                LIGHT.with(|l| l.set(false));
+            }
+            if ch == 2 % chunks && matches!(family(t), "polyline" | "polygon" | "multipatch") {
+                // parts of very different lengths in every order (a part of 600 points among parts of 3)
+                let g = GenCfg { max_parts: 1, max_pts: 1, special_pct: 5, xy_span: 8 };
+                LIGHT.with(|l| l.set(true));
+                for lens in [vec![3usize, 600], vec![600, 3], vec![3, 600, 3, 520]] {
+                    let parts: Vec<Vec<APoint>> = lens.iter().map(|&l| (0..l).map(|_| gen_point(&mut r, t, &g)).collect()).collect();
+                    let kinds: Vec<i32> = if t == 31 { (0..lens.len()).map(|i| (i % 2) as i32).collect() } else if family(t) == "polygon" { vec![0; lens.len()] } else { vec![] };
+                    id += 1;
+                    run_case(&mut tr, &c, &prop, t, &[AShape { t, parts, kinds, bbox: [0; 8] }], &tmp.0, id);
                 }
                 LIGHT.with(|l| l.set(false));
             }
